@@ -24,6 +24,7 @@ def run(tier):
         PROP, tier, progs,
         "coroutine scripts: 1-3 coroutines (create or wrap), bodies of 1-4 operations from {yield v*, resume any coroutine (incl. its resumer, itself, dead ones) v*, status/running, yield from nested and tail-called Lua calls, pcall inside the body, loop with locals and a shared upvalue across yields, return v*, error v}, main script of 2-6 resumes/status calls, payloads of 0-3 distinguishable values; fixed programs: generator in for-in, mutual resume, nesting depth 3, wrap error propagation, misuse from the main thread, locals/closures surviving suspension",
         [], t0, max_steps=20000, nontrivial_min_emits=3)
+    lsem.foot_pass(PROP, progs, verd, stats, cov)      # Frames stage 2 (specs/FramesStep.tla)
     rc = verd.finish()
     cov["known_findings_hit"] = sorted(verd.known_hit)
     cov["spec_invariants_checked_on_every_state"] = ["CoInv: exactly one running, normal = resumer chain, dead keeps nothing"]
@@ -35,6 +36,8 @@ def run(tier):
 
 def replay(path):
     rec = json.load(open(path))
+    if rec["replay"].get("foot"):
+        return lsem.replay_foot(PROP, rec)
     p = rec["replay"]["program"]
     verd = vlib.Verdicts(PROP)
     verd.findings = []
